@@ -58,4 +58,10 @@ def fillAllF (rest : Nibs) (l : Nat) : Bool := rest == List.replicate (14 - l) 1
 def fillAtoF (rest : Nibs) (_l : Nat) : Bool := rest.all (fun x => decide (10 ≤ x) && decide (x ≤ 15))
 def fillA16 (rest : Nibs) (l : Nat) : Bool := rest.take (14 - l) == List.replicate (14 - l) 10
 
+/-- the unique PIN for which the clear block is well formed, if any -/
+def specDecode (ctrl : Nat) (fillOk : Nibs → Nat → Bool) (nibs : Nibs) : Option PyStr :=
+  let l := nibs.getD 1 0
+  let pin := digitChars ((nibs.drop 2).take l)
+  if wellFormed ctrl fillOk nibs pin then some pin else none
+
 end Psec.Spec
